@@ -19,7 +19,7 @@ Workload (phy): a COM-led all-control word (synchronises the reference LFSR), th
 but are not permitted (all-zero data inside a packet, `valid`=0 filler), header-packet / link-command / data-packet shaped
 bursts of tagged symbols (1..266 words; lengths chosen so that the 354-symbol boundary is crossed on the last word of a
 burst, on the first idle word, and on a word that is being replaced), COM-led words, backlogs of 2..6 owed sets drained
-through single idle words, mostly-idle sessions of 6k-10k words, sessions in which bursts outrun the idle time
+through single idle words, mostly-idle sessions of 5k-8k words, sessions in which bursts outrun the idle time
 (backlog >= 8 sets), scrambling on/off.
 
 Oracle (written from the statement and USB 3.2 6.4.3 / appendix B; rv/ref/c31_lfsr.py is the bit-serial LFSR of the
@@ -64,7 +64,7 @@ from rv.ref import c31_lfsr as L
 PROPERTY = "C33"
 CASES = {"quick": 192, "thorough": 3200}
 TIMEOUT = {"quick": 900, "thorough": 4 * 3600}
-RULE = ("case = harness (phy: link-stream script of 1.5k-6k words, 9 % mostly-idle sessions of 6k-10k words, 10 % overload sessions; "
+RULE = ("case = harness (phy: link-stream script of 1.2k-4.5k words, 9 % mostly-idle sessions of 5k-8k words, 10 % overload sessions; "
         "link: bring-up timing script) x scrambling on/off; non-trivial = at least two SKP words inserted (phy) / equaliser "
         "training reached (link); distinct = hash of the full script")
 REQUIRED_BINS = ["mode_phy", "mode_link", "scrambling_on", "scrambling_off",
@@ -237,11 +237,11 @@ def build_phy_script(rng, res, profile, pre_words):
     # sync word first: COM + three control symbols, unique in the stream head
     sb.add(*pack([(COM, 1), (SDP, 1), (EDB, 1), (END, 1)]), 0, 1, "sync")
     if profile == "long":
-        target = rng.randint(6000, 10000)
+        target = rng.randint(5000, 8000)
     elif profile == "overload":
-        target = rng.randint(2500, 5000)
+        target = rng.randint(2200, 4000)
     else:
-        target = rng.randint(1500, 6000)
+        target = rng.randint(1200, 4500)
     if profile == "overload":
         sb.bounded = False
         # bursts outrun the idle time: max-size packets separated by one or two idle words until >= 9 sets are owed,
